@@ -63,6 +63,7 @@ type ContractSet struct {
 	EventHavoc map[string][]string
 	StateUnits []*StateUnitDecl
 	CtxScope   map[string][]string
+	Durables   []*Durable
 }
 
 // StateInv: a state-indexed data invariant of one table (FSM layer). An
@@ -73,6 +74,14 @@ type StateInv struct {
 	Table   string
 	Target  string // state constant or set name
 	Rest    bool
+	Step    bool // two-state invariant (may use old()): holds across every action and every applied message at these states
+	Clause  *Clause
+}
+
+// Durable: ghost mirror of persisted data (see "durable" keyword).
+type Durable struct {
+	PkgPath string
+	Ghost   string
 	Clause  *Clause
 }
 
@@ -216,15 +225,25 @@ func (cs *ContractSet) parseFile(pkgPath, file string) error {
 				return fmt.Errorf("%s:%d: refute outside func", file, lineNo)
 			}
 			cur.Ens = append(cur.Ens, mk("refute"))
-		case "entryinv", "restinv":
-			// entryinv|restinv <table> <State|Set> [@props] [label:] <expr>
+		case "durable":
+			// durable <ghost> <expr>: a ghost mirror of persisted swap data; it is
+			// re-assigned exactly where SendEvent/Recover call UpdateData
+			fs := strings.SplitN(rest, " ", 2)
+			if len(fs) < 2 {
+				return fmt.Errorf("%s:%d: durable <ghost> <expr>", file, lineNo)
+			}
+			rest = strings.TrimSpace(fs[1])
+			cl := mk("durable")
+			cs.Durables = append(cs.Durables, &Durable{PkgPath: pkgPath, Ghost: fs[0], Clause: cl})
+		case "entryinv", "restinv", "stepinv":
+			// entryinv|restinv|stepinv <table> <State|Set> [@props] [label:] <expr>
 			fs := strings.SplitN(rest, " ", 3)
 			if len(fs) < 3 {
 				return fmt.Errorf("%s:%d: %s <table> <state|set> <expr>", file, lineNo, kw)
 			}
 			rest = strings.TrimSpace(fs[2])
 			cl := mk(kw)
-			cs.StateInvs = append(cs.StateInvs, &StateInv{PkgPath: pkgPath, Table: fs[0], Target: fs[1], Rest: kw == "restinv", Clause: cl})
+			cs.StateInvs = append(cs.StateInvs, &StateInv{PkgPath: pkgPath, Table: fs[0], Target: fs[1], Rest: kw == "restinv", Step: kw == "stepinv", Clause: cl})
 		case "event":
 			// event <Event> havoc <field> ...   (fields of SwapData rewritten by the service before the event is sent)
 			fs := strings.Fields(rest)
@@ -297,6 +316,7 @@ func (cs *ContractSet) parseFile(pkgPath, file string) error {
 			}
 		case "lemma":
 			curLemma = &Lemma{Name: rest}
+			lemmaPkg[curLemma] = pkgPath
 			cs.Lemmas = append(cs.Lemmas, curLemma)
 			cur = nil
 		case "var":
@@ -352,6 +372,7 @@ func (cs *ContractSet) parseFile(pkgPath, file string) error {
 	return nil
 }
 
+var lemmaPkg = map[*Lemma]string{}
 var lemmaAssumes = map[*Lemma][]*Clause{}
 var lemmaShows = map[*Lemma][]*Clause{}
 
